@@ -7,7 +7,8 @@ from lib.common import *
 from props import evalh
 
 MIR = None
-STMTS = ['a append= y', 'a[i] = y', 'a[i] += y', 'every a[0:2] = y', 'every a[0:2] += y', 'pop a', 'a[0], a[1] = a[1], a[0]', 'swap a[0], a[1]']
+STMTS = ['a append= y', 'a[i] = y', 'a[i] += y', 'every a[0:2] = y', 'every a[0:2] += y', 'pop a', 'a[0], a[1] = a[1], a[0]', 'swap a[0], a[1]',
+         '(d[1] = []) append= y', 'd[1] append= y', 'd[1][i] = y']          # buckets of a dict d = {1: [...]} (the grouping idiom with a default, and plain)
 def items_for(tier, seed):
     return [('stmt', (si, typed, alias)) for si in range(len(STMTS)) for typed in (False, True) for alias in (False, True)]
 
@@ -17,6 +18,9 @@ def scaling(stmt, typed, alias):
     def prog(N, K):
         body = re.sub(r'\by\b', '7', stmt.replace('[i]', f'[j % {N}]'))
         al = 'b := a; ' if alias else ''
+        if 'd[1]' in stmt:
+            ddecl = 'd: dict = ' if typed else 'd := '
+            return f'{ddecl}{{1: (0 til {N}) then list}}; {"b := d; " if alias else ""}for (j <- 0 til {K}) ({body}); len(d[1])'
         return f'{decl}(0 til {N}) then list; {al}for (j <- 0 til {K}) ({body}); len(a)'
     K = 4000 if 'pop' not in stmt else 8
     if 'pop' in stmt: return {'timing': {'small': prog(10 + K, K), 'base': prog(30000, 0), 'big': prog(30000, K), 'ratio': 5, 'metric': 'alloc'}, 'program': None}
@@ -31,6 +35,12 @@ def run_shape(item, ob, mode='C02'):
         lst = evalh.olist([evalh.num(z3.IntVal(10 + k)) for k in range(3)])
         binds = {'a': (Adt('ObjType', 'List' if typed else 'Any', []), lst), 'i': evalh.num(I), 'y': evalh.num(Yv)}
         if alias: binds['b'] = E.clone_value(lst)
+        if 'd[1]' in stmt:
+            from mirsym.hashmap import hm
+            bucket = evalh.olist([evalh.num(z3.IntVal(20 + k)) for k in range(3)])
+            dct = Adt('Obj', 'Seq', [Adt('Seq', 'Dict', [RcV(RcObj(hm([Tup([Adt('ObjKey', None, [evalh.num(z3.IntVal(1))]), bucket])]))), opt()])])
+            binds['d'] = (Adt('ObjType', 'Dict' if typed else 'Any', []), dct)
+            if alias: binds['b'] = E.clone_value(dct)
         env = evalh.top_env(binds, builtins=('+', '-', '*', '<', '==', 'append'))
         E.log.clear()
         r = evalh.run_program(E, ast, env)
@@ -42,6 +52,7 @@ def run_shape(item, ob, mode='C02'):
         if kd != 'ok': ob.missing(name, f'{kd}: {res}'); continue
         r, log = res
         copies = [l for l in log if l[0] in ('make_mut_clone', 'realloc') or (l[0] == 'deep_clone' and str(l[1]).startswith('Vec'))]
-        ob.check(name + f' copies <= {1 if alias else 0}', pc, z3.BoolVal(len(copies) <= (1 if alias else 0)), replay=trep, cls=f'{mode}/statement `{stmt}`/extra-copy',
+        bound = 0 if not alias else (2 if 'd[1]' in stmt else 1)          # with an alias: one copy per level of the path (dict, then its bucket)
+        ob.check(name + f' copies <= {bound}', pc, z3.BoolVal(len(copies) <= bound), replay=trep, cls=f'{mode}/statement `{stmt}`/extra-copy',
                  sample=f'clone log {copies}'); ob.witness(r.variant)
     ob.absorb_engine(E)
